@@ -422,6 +422,41 @@ def body(ck):
                                        case={"reproducer": "eqx.filter_jit(lambda p,o,k: p(None,o,key=k))(MLPActorCriticPolicy(env with MultiDiscrete((2,3)) actions), zeros(3), key)",
                                              "cause": "multi_categorical.py:120 split_idx = jnp.cumsum(jnp.asarray(action_dims[:-1])) is a tracer under jit; jnp.split needs static indices"}))
 
+    # --- large discrete action spaces (more than 128 actions: indices beyond the range of a narrow integer type): masks that allow only
+    #     high indices, through every sampling entry point of the actor-critic policy and of the Q policy
+    for n, allowed in ([(200, [150, 180]), (300, [129, 255, 299])] if quick else [(200, [150, 180]), (300, [129, 255, 299]), (129, [128]), (1000, [500, 999]), (257, [130, 256])]):
+        mask = np.zeros(n, dtype=bool); mask[allowed] = True
+        policy = MLPActorCriticPolicy(env=mk_env(Discrete(n)), key=jr.key(int(rng.integers(2 ** 31))), feature_size=8, feature_width=16, value_width=16, action_width=16)
+        qpol = MLPQPolicy(env=mk_env(Discrete(n)), epsilon=0.5, width_size=16, depth=2, key=jr.key(int(rng.integers(2 ** 31))))
+        obs = jnp.asarray(rng.uniform(-1, 1, size=3)); mk = jnp.asarray(mask)
+        keys = jr.split(jr.key(int(rng.integers(2 ** 31))), 64)
+        ck.current_case = {"component": "large-action-space", "n": n, "allowed": allowed}
+        feat = policy.encoder(policy.observation_space.flatten_sample(obs))
+        pm = np.asarray(policy.action_head(feat, action_mask=mk).probs, dtype=np.float64)
+        outs = {
+            "policy.__call__(key)": (np.asarray(jax.vmap(lambda k: policy(None, obs, key=k, action_mask=mk)[1])(keys)), None),
+            "policy.__call__(key=None)": (np.asarray(policy(None, obs, key=None, action_mask=mk)[1]).reshape(1), None),
+            "policy.action_and_value": (lambda r: (np.asarray(r[1]), np.asarray(r[3])))(jax.vmap(lambda k: policy.action_and_value(None, obs, key=k, action_mask=mk))(keys)),
+            "qpolicy.__call__(key)": (np.asarray(jax.vmap(lambda k: qpol(None, obs, key=k, action_mask=mk)[1])(keys)), None),
+            "qpolicy.__call__(key=None)": (np.asarray(qpol(None, obs, key=None, action_mask=mk)[1]).reshape(1), None),
+        }
+        ck.count("large-action-space-probes", len(outs)); ck.evaluations += sum(len(a) for a, _ in outs.values())
+        ck.case_seen(("large", n, tuple(allowed)))
+        for api, (acts, lps) in outs.items():
+            bad = [(i, int(a)) for i, a in enumerate(acts) if int(a) not in allowed]
+            what = None
+            if bad:
+                what = f"{api} returned an action the mask forbids (or not an action at all): {bad[:4]}"
+            elif lps is not None:
+                worst = max(abs(float(lp) - float(np.log(pm[int(a)]))) for a, lp in zip(acts, lps))
+                if not np.isfinite(worst) or worst > 1e-3:
+                    what = f"{api} reports a log-probability that is not the masked distribution's log-probability of the returned action (max deviation {worst})"
+            if what:
+                ck.violations.append(Violation("impl-violates-property", f"C16/large-action-space/{api.split('(')[0]}", what,
+                                               case={"n_actions": n, "allowed": allowed, "api": api, "impl_actions": [int(a) for a in acts[:16]],
+                                                     "impl_log_probs": None if lps is None else [float(x) for x in lps[:16]],
+                                                     "masked_probs_of_allowed": {int(a): float(pm[a]) for a in allowed}}))
+
     # --- Q policy
     def q_runs(eps, with_mask):
         @eqx.filter_jit
